@@ -501,6 +501,9 @@ def run(chk):
         elif name == "<":
             chk.step("nary-mixed(int/real) " + name, spec_nary, chk, name, 2, ("Integer", "Real"))
     for name in ("max", "min"):
+        # two ratios first: the only pair of exact operands whose order needs both cross products, in a unit small enough
+        # for the bit-vector search to reach when the integer/FP query of a changed comparison comes back unknown
+        chk.step("extreme-pair(ratio) " + name, spec_extreme, chk, name, 2, ("Rational",))
         chk.step("extreme-exact " + name, spec_extreme, chk, name, N, EX)
         if thorough:
             chk.step("extreme-mixed " + name, spec_extreme, chk, name, 2)
